@@ -133,6 +133,7 @@ func c19GraphFragment(ast *syntax.Ast) string {
 type c19GraphPrinter struct {
 	callableOf map[string]string // fqid -> callable name
 	odd        string            // an expression kind outside the fragment
+	withDis    bool              // print DisabledExp as ( D control value ) instead of flagging it
 }
 
 func (gp *c19GraphPrinter) exp(e *c19Enc, x syntax.Exp) {
@@ -197,8 +198,16 @@ func (gp *c19GraphPrinter) exp(e *c19Enc, x syntax.Exp) {
 		gp.odd = "merge"
 		e.tok("?merge")
 	case *syntax.DisabledExp:
-		gp.odd = "disabled"
-		e.tok("?disabled")
+		if gp.withDis {
+			e.tok("(")
+			e.tok("D")
+			gp.exp(e, x.Disabled)
+			gp.exp(e, x.Value)
+			e.tok(")")
+		} else {
+			gp.odd = "disabled"
+			e.tok("?disabled")
+		}
 	case nil:
 		e.tok("?nil")
 	default:
@@ -214,6 +223,8 @@ type c19GNode struct {
 	Keys                 []string          // input names, sorted
 	Ins                  map[string]string // input name -> printed resolved expression
 	Out, Ret             string
+	Dis                  string // with disabled modifiers: the node's disable list
+	withDis              bool
 }
 
 func (n *c19GNode) line() string {
@@ -237,18 +248,30 @@ func (n *c19GNode) line() string {
 		e.tok(n.Ret)
 	}
 	e.tok(")")
+	if n.withDis {
+		e.tok("(")
+		if n.Dis != "" {
+			e.tok(n.Dis)
+		}
+		e.tok(")")
+	}
 	e.tok(")")
 	return e.sb.String()
 }
 
 // c19GraphNodes walks the real graph.
 func c19GraphNodes(g syntax.CallGraphNode) (nodes []*c19GNode, odd string, err error) {
+	return c19GraphNodesD(g, false)
+}
+
+// c19GraphNodesD: withDis = the encoding of C19.graphd (DisabledExp printed, disable list per node).
+func c19GraphNodesD(g syntax.CallGraphNode, withDis bool) (nodes []*c19GNode, odd string, err error) {
 	defer func() {
 		if p := recover(); p != nil {
 			err = fmt.Errorf("PANIC while printing the call graph: %v", p)
 		}
 	}()
-	gp := &c19GraphPrinter{callableOf: map[string]string{}}
+	gp := &c19GraphPrinter{callableOf: map[string]string{}, withDis: withDis}
 	var all []syntax.CallGraphNode
 	var walk func(n syntax.CallGraphNode)
 	walk = func(n syntax.CallGraphNode) {
@@ -260,7 +283,7 @@ func c19GraphNodes(g syntax.CallGraphNode) (nodes []*c19GNode, odd string, err e
 	}
 	walk(g)
 	for _, n := range all {
-		gn := &c19GNode{Fqid: n.GetFqid(), Callable: n.Callable().GetId(), Kind: "S", Ins: map[string]string{}}
+		gn := &c19GNode{Fqid: n.GetFqid(), Callable: n.Callable().GetId(), Kind: "S", Ins: map[string]string{}, withDis: withDis}
 		if n.Kind() == syntax.KindPipeline {
 			gn.Kind = "P"
 		}
@@ -294,7 +317,15 @@ func c19GraphNodes(g syntax.CallGraphNode) (nodes []*c19GNode, odd string, err e
 			gn.Ret = e.sb.String()
 		}
 		if len(n.Disabled()) > 0 {
-			gp.odd = "disabled"
+			if withDis {
+				var e c19Enc
+				for _, d := range n.Disabled() {
+					gp.exp(&e, d)
+				}
+				gn.Dis = e.sb.String()
+			} else {
+				gp.odd = "disabled"
+			}
 		}
 		if len(n.ForkRoots()) > 0 {
 			gp.odd = "forks"
@@ -357,6 +388,91 @@ func c19ModelGraphLines(rep string) []string {
 	return lines
 }
 
+// c19GraphTieD: the model with `disabled` modifiers (deepGraphD, C19.graphd) against the real graph.
+// expectSame: the program has no disabled modifier, deepGraphD must be the embedding of deepGraph.
+func c19GraphTieD(c *Ctx, plain, compiled *syntax.Ast, g syntax.CallGraphNode, expectSame bool) (verdict string, real, model []string) {
+	if c19HasMapCall(compiled) {
+		return "skip:map-call", nil, nil
+	}
+	nodes, odd, err := c19GraphNodesD(g, true)
+	if err != nil {
+		return "skip:" + err.Error(), nil, nil
+	}
+	if odd != "" {
+		return "skip:resolved-" + odd, nil, nil
+	}
+	for _, n := range nodes {
+		real = append(real, n.line())
+	}
+	sort.Strings(real)
+	rep := c.Drv.Ask("C19.graphd", c19Encode(plain), c19EncodeTypes(compiled))
+	if rep == "bad-op" || !strings.HasPrefix(rep, "same=") {
+		return "driver could not evaluate C19.graphd", real, nil
+	}
+	sp := strings.IndexByte(rep, ' ')
+	same, rest := rep[:sp], rep[sp+1:]
+	if expectSame && same != "same=true" {
+		return "deepGraphD is not the embedding of deepGraph on a program without disabled modifiers", real, nil
+	}
+	model = c19ModelGraphLines(rest)
+	if len(real) != len(model) {
+		return fmt.Sprintf("(with disabled) node count: real %d, model %d", len(real), len(model)), real, model
+	}
+	for i := range real {
+		if real[i] != model[i] {
+			return fmt.Sprintf("(with disabled) node %d differs:\n  real : %s\n  model: %s", i, real[i], model[i]), real, model
+		}
+	}
+	return "equal-with-disabled", real, model
+}
+
+// c19HasMapCall: a map call / split anywhere in the program.
+func c19HasMapCall(ast *syntax.Ast) bool {
+	var hasSplit func(x syntax.Exp) bool
+	hasSplit = func(x syntax.Exp) bool {
+		switch x := x.(type) {
+		case *syntax.SplitExp:
+			return true
+		case *syntax.ArrayExp:
+			for _, v := range x.Value {
+				if hasSplit(v) {
+					return true
+				}
+			}
+		case *syntax.MapExp:
+			for _, v := range x.Value {
+				if hasSplit(v) {
+					return true
+				}
+			}
+		}
+		return false
+	}
+	check := func(c *syntax.CallStm) bool {
+		if c.CallMode() != syntax.ModeSingleCall {
+			return true
+		}
+		if c.Bindings != nil {
+			for _, b := range c.Bindings.List {
+				if hasSplit(b.Exp) {
+					return true
+				}
+			}
+		}
+		return false
+	}
+	for _, cl := range ast.Callables.List {
+		if p, ok := cl.(*syntax.Pipeline); ok {
+			for _, call := range p.Calls {
+				if check(call) {
+					return true
+				}
+			}
+		}
+	}
+	return ast.Call != nil && check(ast.Call)
+}
+
 // c19GraphTie compares the model's deepGraph of the (uncompiled) program with
 // the real call graph of its compiled form.  Returns "" when equal, "skip:<why>"
 // when the program is outside the fragment, else a description of the first
@@ -365,7 +481,9 @@ func c19GraphTie(c *Ctx, plain, compiled *syntax.Ast, g syntax.CallGraphNode) (v
 	if c.Drv == nil || g == nil {
 		return "skip:no-driver-or-graph", nil, nil
 	}
-	if why := c19GraphFragment(compiled); why != "" {
+	if why := c19GraphFragment(compiled); why == "disabled" {
+		return c19GraphTieD(c, plain, compiled, g, false)
+	} else if why != "" {
 		return "skip:" + why, nil, nil
 	}
 	real, odd, err := c19GraphLines(g)
@@ -402,10 +520,24 @@ func c19GraphTieCase(c *Ctx, cs *c19Case, plain *syntax.Ast, base *c19Compiled) 
 	}
 	verdict, real, model := c19GraphTie(c, plain, base.Ast, base.Graph)
 	switch {
+	case verdict == "equal-with-disabled":
+		r.hist("graph-tie:equal(with-disabled-modifiers)")
+		r.count("graphd\x00"+cs.Src, len(real) > 1)
 	case verdict == "":
 		r.hist("graph-tie:equal")
 		r.count("graph\x00"+cs.Src, len(real) > 1)
 		c19GraphSeen++
+		if c.Thorough || c19GraphSeen%3 == 1 {
+			// deepGraphD (the model with disabled modifiers) must be the embedding of deepGraph here, and equal the real graph
+			if v, rl, ml := c19GraphTieD(c, plain, base.Ast, base.Graph, true); v != "equal-with-disabled" && !strings.HasPrefix(v, "skip:") {
+				r.violate(Violation{Kind: "correspondence", Key: "C19:deepgraphD-model-differs",
+					What:  "on a program without disabled modifiers: " + v,
+					Input: c19Replay{Program: cs.Src, Note: "found in " + cs.Name}, Impl: strings.Join(rl, "\n"), Model: strings.Join(ml, "\n"),
+					Broken: "correspondence Martian.Refactor.deepGraphD ~ deepGraph ~ syntax.Ast.MakeCallGraph"})
+			} else {
+				r.hist("graph-tie:deepGraphD=embedding-of-deepGraph")
+			}
+		}
 		// thorough tier: the graph tie on every program, the theorem instances and real edits on every third
 		if !c.Thorough || c19GraphSeen%3 == 0 {
 			c19GraphTheorems(c, cs, plain, base)
@@ -435,7 +567,7 @@ func c19GraphExtra(c *Ctx, want int) {
 	made := 0
 	for tries := 0; made < want && tries < 40*want; tries++ {
 		p := c19Gen(c.Rng)
-		if p == nil || p.Features["map-call"] || p.Features["disabled"] {
+		if p == nil || p.Features["map-call"] {
 			continue
 		}
 		src, err := c19Format(p.Src, path)
